@@ -28,6 +28,11 @@ theorem sortInputs_sorted (l : List TxIn) :
   simp only [id, keyLt_eq_ledger] at this
   exact this
 
+/-- policy ids are hashes of one length (28 bytes), so their CBOR encodings share the head `58 1c`: the order of the
+sort keys `x.to_cbor()` is the bytewise order of the hashes -/
+theorem policy_key_order (a b : Bytes) (hl : a.length = b.length) :
+    bytesLt (policyKey a) (policyKey b) = bytesLt a b := policyKey_order a b hl
+
 /-- **spending redeemers**: after `build`, the redeemer attached to input `u` carries the rank of `u` among *all*
 inputs of the transaction (added by hand or selected), in the ledger's order — for any number of inputs -/
 theorem spend_index (net : Nat) (st st' : St) (sel : List TxIn) (ev : Nat → Nat → Option (Int × Int))
@@ -293,6 +298,7 @@ end Pyc.C11
 #print axioms Pyc.C11.input_key_is_ledger_order
 #print axioms Pyc.C11.sortInputs_perm
 #print axioms Pyc.C11.sortInputs_sorted
+#print axioms Pyc.C11.policy_key_order
 #print axioms Pyc.C11.spend_index
 #print axioms Pyc.C11.mint_index
 #print axioms Pyc.C11.reward_index
